@@ -72,6 +72,16 @@ ASSUMPTIONS = [
     "drops nodes and hydration legitimately fails",
     "escape = true (children of script/style are not hydrated), mark_branches = false (the islands-router forms "
     "to_html*_branching put <!--bo-…--> comments into the markup that no hydrate skips: not a hydration target)",
+    "generator preconditions of the oracle-only kinds (each found as a false alarm of the thorough tier, none a defect of "
+    "the code): inside anything a re-running closure returns, inside keyed rows and inside Suspend content, signals are "
+    "used as closures / Arc types only (an arena wrapper created there belongs to an owner the next run disposes while "
+    "effects of the previous view may still be queued: 'reactive value already disposed', by leptos' rules a misuse) and "
+    "elements carry no dynamic attribute values (two element branches of one type are rebuilt into each other, attribute "
+    "values of different erased types are rebuilt without reset and the dropped effect's last write depends on the poll "
+    "order); no StaticVec in dynamic views (it cannot be replaced in place / rebuilt while unmounted: C03); a dynamic "
+    "class:x is never combined with a whole class=; one style property name per element position and whole style= only "
+    "on typed roots (the native DOM cannot remove a declaration that came with the parsed style attribute); a spread never "
+    "wraps a spread of the same attribute",
     "one attribute name has one owner per element (a spread attribute never repeats a name the element sets itself; "
     "a dynamic class= is never combined with a dynamic class:x on the same element: the result depends on effect order)",
 ]
